@@ -23,6 +23,21 @@ def _sym(*names):
     return [sp.Symbol(n, real=True) for n in names]
 
 
+def _is_advance(s: ast.stmt) -> bool:
+    """the statement of the breakpoint loop that fetches the next breakpoint (try/except IndexError or if/else)"""
+    if not isinstance(s, (ast.Try, ast.If)):
+        return False
+    return any(isinstance(x, ast.Assign) and src(x.targets[0]) == "t_cur" for x in ast.walk(s))
+
+
+def _is_pinning(s: ast.stmt) -> bool:
+    if not isinstance(s, ast.If):
+        return False
+    stores = [x for x in ast.walk(s) if isinstance(x, (ast.Assign, ast.AugAssign))]
+    return bool(stores) and all(isinstance((x.targets[0] if isinstance(x, ast.Assign) else x.target), ast.Subscript) and
+                                src((x.targets[0] if isinstance(x, ast.Assign) else x.target).value) == "x_cp" for x in stores)
+
+
 def _top_targets(s: ast.stmt) -> List[str]:
     if isinstance(s, ast.Assign):
         return [src(t) for t in s.targets]
@@ -70,11 +85,13 @@ def rule_cpform(ctx: Ctx) -> List[Ob]:
         # ---------------- (b) one pass of the loop body
         body = []
         for s in lp.body:
-            if isinstance(s, ast.Try):
+            if _is_advance(s):
                 break
+            if _is_pinning(s):
+                continue       # stores the bound into x_cp: decided by SIGN / PIN
             body.append(s)
         K = Kernel(bindings={"mats.W[ibp, :]": Vec({"w": 1}), "grad[ibp]": Sc(gb), "x_cp[ibp] - x[ibp]": Sc(zb),
-                             "mats.theta": Sc(theta), "mats.invMfactors": Sc(0)},
+                             "mats.theta": Sc(theta), "mats.invMfactors": Sc(0), "d[ibp]": Sc(S("d_b"))},
                    conds={"mats.use_factor": use, "delta_t_min < delta_t": False, "d[ibp] > 0": False, "d[ibp] < 0": False,
                           "d[ibp] != 0": False},
                    maps={"bmv": "M"}, ignore_stores={"d", "x_cp", "d[ibp]"})
@@ -104,7 +121,9 @@ def rule_cpform(ctx: Ctx) -> List[Ob]:
     dtm = sp.Symbol("dtm", real=True)
     K.env.update({"delta_t_min": Sc(dtm), "t_old": Sc(told), "c": Vec({"c": 1}), "p": Vec({"p": 1}), "delta_t": Sc(dt),
                   "t_cur": Sc(tcur)})
-    tail = [s for s in post if set(_top_targets(s)) & {"delta_t_min", "t_old", "c"}]
+    tail = [s for s in post if set(_top_targets(s)) & {"delta_t_min", "t_old", "c"} or
+            (isinstance(s, ast.If) and any("delta_t_min" in _top_targets(x) for x in s.body) and
+             not any(isinstance(y, ast.Name) and y.id in ("iprint", "logger") for y in ast.walk(s.test)))]
     need(len(tail) >= 2, "CPFORM: final-segment statements (delta_t_min clamp, t_old, c) not found")
     K.run(tail)
     pos = sp.Function("pos")(dtm)
@@ -115,10 +134,12 @@ def rule_cpform(ctx: Ctx) -> List[Ob]:
     # free variables move to x + t_old * d
     st = [s for s in post if isinstance(s, ast.Assign) and isinstance(s.targets[0], ast.Subscript) and src(s.targets[0].value) == "x_cp"]
     need(len(st) == 1, "CPFORM: store of the free variables into x_cp after the loop not found")
+    from ..flow import Expander, selection_like
+    sx = Expander(ctx, f, only=selection_like)
     rhs = st[0].value
-    mask_l, mask_r = src(st[0].targets[0].slice), None
+    mask_l, mask_r = src(sx.expand_at(st[0], st[0].targets[0].slice)), None
     while isinstance(rhs, ast.Subscript):
-        mask_r = src(rhs.slice)
+        mask_r = src(sx.expand_at(st[0], rhs.slice))
         rhs = rhs.value
     v = K.ev(rhs)
     ok, why = equal(v, Vec({"x": 1, "d": told + pos}))
@@ -130,9 +151,9 @@ def rule_cpform(ctx: Ctx) -> List[Ob]:
     tnext = sp.Symbol("t_next", real=True)
     after = []
     seen_try = False
-    trys = [s for s in lp.body if isinstance(s, ast.Try)]
+    trys = [s for s in lp.body if _is_advance(s)]
     for s in lp.body:
-        if isinstance(s, ast.Try):
+        if _is_advance(s):
             seen_try = True
             continue
         if seen_try:
@@ -149,21 +170,26 @@ def rule_cpform(ctx: Ctx) -> List[Ob]:
     ok = "t_old" in K.env and "delta_t" in K.env and equal(K.env["t_old"], Sc(0))[0] and equal(K.env["delta_t"], Sc(tcur))[0]
     obs.append(ob("CPFORM", "the path starts at t = 0 and the first segment ends at the first breakpoint", f, pre[-1], ok,
                   f"t_old = {K.env.get('t_old')}, delta_t = {K.env.get('delta_t')}", construct="init t_old = 0, delta_t = t_cur"))
+    def _alt(a):
+        return [x for h in a.handlers for x in h.body] if isinstance(a, ast.Try) else list(a.orelse)
     okh = len(trys) == 1 and any(isinstance(x, ast.Assign) and src(x.targets[0]) == "t_cur" and src(x.value) in ("np.inf", "float('inf')", "math.inf")
-                                 for h in trys[0].handlers for x in h.body) and \
+                                 for x in _alt(trys[0])) and \
         any(isinstance(x, ast.Assign) and src(x.targets[0]) == "t_cur" and isinstance(x.value, ast.Subscript) and src(x.value.value) == "t"
             for x in trys[0].body)
+    if okh and isinstance(trys[0], ast.If):
+        okh = src(trys[0].test).replace(" ", "") in ("_i<len(sorted_t_idx)", "_i<nbreak", "len(sorted_t_idx)>_i", "nbreak>_i")
     obs.append(ob("CPFORM", "after the last breakpoint the segment is unbounded (t_cur = inf)", f, trys[0] if trys else lp, okh,
                   "next breakpoint read from t; past the end of the list t_cur = inf" if okh else "the end-of-list case does not set t_cur to infinity",
                   construct="try: t_cur = t[ibp] except IndexError: t_cur = inf"))
     ctr_defs = [s for s in walk_no_nested(f.node) if isinstance(s, (ast.Assign, ast.AugAssign, ast.AnnAssign)) and "_i" in _top_targets(s)]
     okc = len(ctr_defs) == 2 and isinstance(ctr_defs[0], ast.Assign) and isinstance(ctr_defs[0].value, ast.Constant) and ctr_defs[0].value.value == 0 \
         and isinstance(ctr_defs[1], ast.AugAssign) and isinstance(ctr_defs[1].op, ast.Add) and isinstance(ctr_defs[1].value, ast.Constant) \
-        and ctr_defs[1].value.value == 1 and ctr_defs[1] in lp.body and src(lp.test).replace(" ", "") in ("_i<len(sorted_t_idx)", "len(sorted_t_idx)>_i", "_i<nbreak")
+        and ctr_defs[1].value.value == 1 and ctr_defs[1] in lp.body and src(lp.test).replace(" ", "") in ("_i<len(sorted_t_idx)", "len(sorted_t_idx)>_i", "_i<nbreak", "nbreak>_i")
     obs.append(ob("CPFORM", "breakpoints are consumed one per iteration from the first", f, ctr_defs[0] if ctr_defs else lp, okc,
                   f"counter definitions {[short(x) for x in ctr_defs]}, guard `{short(lp.test)}`", construct="_i = 0; while _i < len(list): ... _i += 1"))
-    inf_set = [s for s in pre if isinstance(s, ast.Assign) and isinstance(s.targets[0], ast.Subscript) and src(s.targets[0].value) == "t"
-               and src(s.value) in ("np.inf", "float('inf')") and src(s.targets[0].slice).replace(" ", "") in ("grad==0", "~mask")]
+    inf_set = [s for g in ctx.repo.funcs_in("cauchy") for s in walk_no_nested(g.node)
+               if isinstance(s, ast.Assign) and isinstance(s.targets[0], ast.Subscript)
+               and src(s.value) in ("np.inf", "float('inf')") and src(s.targets[0].slice).replace(" ", "") in ("grad==0", "~mask", "~nz")]
     obs.append(ob("CPFORM", "variables with zero gradient never reach a bound (t = inf)", f, inf_set[0] if inf_set else pre[0], bool(inf_set),
                   short(inf_set[0]) if inf_set else "no statement t[grad == 0] = inf", construct="t[grad == 0] = np.inf"))
     # breakpoint times and direction
@@ -206,11 +232,14 @@ def rule_ratioform(ctx: Ctx) -> List[Ob]:
              ("subspacemin.subspace_minimization", {"xc": x, "lb": lb, "ub": ub, "dHat": d}, "dHat",
               {"pos": (ub - x) / d, "neg": (lb - x) / d})]
     for q, names, dirn, ref in sites:
-        f = ctx.repo.func(q)
+      ctx.repo.func(q)    # anchor
+      n = 0
+      for f in ctx.repo.funcs_in(q.split(".")[0]):
+        if not ("lb" in f.params and "ub" in f.params):
+            continue
         from ..flow import Expander, selection_like
         ex = Expander(ctx, f, only=selection_like)
         parents = {id(c): p for p in ast.walk(f.node) for c in ast.iter_child_nodes(p)}
-        n = 0
         for w in walk_no_nested(f.node):
             if isinstance(w, ast.Call) and dotted(w.func) == "np.where" and len(w.args) == 3 and \
                     any(isinstance(y, ast.Name) and y.id in ("lb", "ub") for a in w.args[1:] for y in ast.walk(ex.expand_at(w, a))):
@@ -231,7 +260,7 @@ def rule_ratioform(ctx: Ctx) -> List[Ob]:
                     obs.append(ob("RATIOFORM", f"bound ratio for {dirn} {'>' if lab == 'pos' else '<'} 0 is (bound - point)/direction",
                                   f, site, ok, f"{short(e, 60)} = {v.e}" + ("" if ok else f"; reference {ref[lab]}; {why}"),
                                   construct=f"{f.name}: ratio[{dirn}{'>' if lab == 'pos' else '<'}0] {short(e, 50)}"))
-        need(n == 2, f"RATIOFORM: expected one bound-ratio np.where in {q}, found {n // 2}")
+      need(n == 2, f"RATIOFORM: expected one bound-ratio np.where in module {q.split('.')[0]}, found {n // 2}")
     return obs
 
 
@@ -272,10 +301,15 @@ def _mx(e: ast.expr, env: Dict[str, tuple]):
             if inner[0] == "diagv":
                 return ("diagm", inner[1])
             return ("diagv", inner)
-        if d in ("np.hstack", "np.vstack") and len(e.args) == 1 and isinstance(e.args[0], (ast.List, ast.Tuple)):
+        if d in ("np.hstack", "np.vstack", "np.column_stack") and len(e.args) == 1 and isinstance(e.args[0], (ast.List, ast.Tuple)):
             return (d[3:],) + tuple(_mx(x, env) for x in e.args[0].elts)
         if d.split(".")[-1] == "form_invMfactors":
-            return ("form_invMfactors",) + tuple(_mx(a, env) for a in e.args)
+            order = ["theta", "STS", "L", "D"]
+            vals = {order[i]: a for i, a in enumerate(e.args) if i < 4}
+            for k_ in e.keywords:
+                if k_.arg in order:
+                    vals[k_.arg] = k_.value
+            return ("form_invMfactors",) + tuple(_mx(vals[o], env) if o in vals else ("missing", o) for o in order)
     return ("opaque", k)
 
 
@@ -324,11 +358,18 @@ def rule_bfgsform(ctx: Ctx) -> List[Ob]:
     # matrices
     env: Dict[str, tuple] = {}
     got: Dict[str, tuple] = {}
+    # any scalar local that holds theta (theta = yTy / sTy; mats.theta = theta) is the symbol theta
+    theta_names = set()
+    for s in body:
+        if isinstance(s, (ast.Assign, ast.AnnAssign)) and getattr(s, "value", None) is not None:
+            t = s.targets[0] if isinstance(s, ast.Assign) else s.target
+            if src(t) == "mats.theta" and isinstance(s.value, ast.Name):
+                theta_names.add(s.value.id)
     for s in body:
         if isinstance(s, (ast.Assign, ast.AnnAssign)) and getattr(s, "value", None) is not None:
             t = s.targets[0] if isinstance(s, ast.Assign) else s.target
             k = src(t)
-            if k in ("mats.theta",):
+            if k in ("mats.theta",) or k in theta_names:
                 env[k] = ("sym", "theta")
                 continue
             if k.startswith("mats.") or isinstance(t, ast.Name):
@@ -352,40 +393,70 @@ def rule_bfgsform(ctx: Ctx) -> List[Ob]:
 @rule("FILTERWALK", min_instances=2)
 def rule_filterwalk(ctx: Ctx) -> List[Ob]:
     """the curvature filter visits every stored point older than the newest one, from the newest to
-    the oldest: with L = len(X) the loop runs over i in range(L - 1) and examines index L - 2 - i"""
+    the oldest: with L = len(X) it examines the indices L-2, L-3, ..., 0 (a `for i in range(L-1)` with
+    index L-2-i, or a `while k >= 0` walk starting at L-2 and decreasing by one)"""
     f = ctx.repo.func("bfgsmats.make_X_and_G_respect_strong_wolfe")
     obs: List[Ob] = []
     Xp = f.params[0]
     L, i = sp.Symbol("L", integer=True), sp.Symbol("i", integer=True)
-    loops = [s for s in f.node.body if isinstance(s, ast.For)]
+    loops = [s for s in f.node.body if isinstance(s, (ast.For, ast.While))]
     need(len(loops) == 1, "FILTERWALK: loop not found")
     lp = loops[0]
     K = Kernel(bindings={f"len({Xp})": Sc(L)}, conds={}, maps={})
-    K.run([s for s in f.node.body[: f.node.body.index(lp)] if isinstance(s, (ast.Assign, ast.AnnAssign)) and
-           not isinstance((s.targets[0] if isinstance(s, ast.Assign) else s.target), ast.Tuple)
-           and not isinstance(getattr(s, "value", None), ast.Tuple)])
-    rng = lp.iter
-    okr = isinstance(rng, ast.Call) and dotted(rng.func) == "range" and len(rng.args) == 1 and isinstance(lp.target, ast.Name)
-    n_it = K.ev(rng.args[0]) if okr else None
-    ok = okr and equal(n_it, Sc(L - 1))[0]
-    obs.append(ob("FILTERWALK", "one visit per stored point older than the newest", f, lp, bool(ok),
-                  f"range({n_it.e if n_it is not None else '?'}) with L = len({Xp})", construct=f"for {short(lp.target)} in {short(rng)}"))
-    if okr:
-        K.env[lp.target.id] = Sc(i)
-        idx = None
-        for s in lp.body:
-            if isinstance(s, (ast.Assign, ast.AnnAssign)) and isinstance((s.targets[0] if isinstance(s, ast.Assign) else s.target), ast.Name):
-                K.stmt(s)
-        # the index used in X[k]
-        used = {src(x.slice) for x in ast.walk(lp) if isinstance(x, ast.Subscript) and src(x.value) == Xp}
-        okk = len(used) == 1
-        if okk:
-            e = ast.parse(list(used)[0], mode="eval").body
-            v = K.ev(e)
-            okk = equal(v, Sc(L - 2 - i))[0]
+    for st in f.node.body[: f.node.body.index(lp)]:
+        if isinstance(st, (ast.Assign, ast.AnnAssign)) and getattr(st, "value", None) is not None and \
+                isinstance((st.targets[0] if isinstance(st, ast.Assign) else st.target), ast.Name):
+            try:
+                K.stmt(st)
+            except AnalysisError:
+                pass
+    used = {src(x.slice) for x in ast.walk(lp) if isinstance(x, ast.Subscript) and src(x.value) == Xp}
+    if isinstance(lp, ast.For):
+        rng = lp.iter
+        okr = isinstance(rng, ast.Call) and dotted(rng.func) == "range" and len(rng.args) == 1 and isinstance(lp.target, ast.Name)
+        n_it = K.ev(rng.args[0]) if okr else None
+        ok = okr and equal(n_it, Sc(L - 1))[0]
+        obs.append(ob("FILTERWALK", "one visit per stored point older than the newest", f, lp, bool(ok),
+                      f"range({n_it.e if n_it is not None else '?'}) with L = len({Xp})", construct="walk over the older points: count"))
+        okk, v = False, None
+        if okr:
+            K.env[lp.target.id] = Sc(i)
+            for s in lp.body:
+                if isinstance(s, (ast.Assign, ast.AnnAssign)) and isinstance((s.targets[0] if isinstance(s, ast.Assign) else s.target), ast.Name):
+                    K.stmt(s)
+            if len(used) == 1:
+                v = K.ev(ast.parse(list(used)[0], mode="eval").body)
+                okk = equal(v, Sc(L - 2 - i))[0]
         obs.append(ob("FILTERWALK", "points are visited from the second newest down to the oldest", f, lp, bool(okk),
-                      f"index expression(s) {sorted(used)} = {v.e if len(used) == 1 else '?'} (reference L - 2 - i)",
-                      construct=f"{Xp}[k] with k = L - 2 - i"))
+                      f"index expression(s) {sorted(used)} = {v.e if v is not None else '?'} (reference L - 2 - i)",
+                      construct="walk over the older points: index"))
+    else:
+        # while k >= 0: ... k -= 1   with k = L - 2 before the loop
+        t = lp.test
+        kname = None
+        if isinstance(t, ast.Compare) and len(t.ops) == 1 and isinstance(t.left, ast.Name) and isinstance(t.comparators[0], ast.Constant):
+            if (isinstance(t.ops[0], ast.GtE) and t.comparators[0].value == 0) or (isinstance(t.ops[0], ast.Gt) and t.comparators[0].value == -1):
+                kname = t.left.id
+        ok = kname is not None and kname in K.env and equal(K.env[kname], Sc(L - 2))[0]
+        obs.append(ob("FILTERWALK", "one visit per stored point older than the newest", f, lp, bool(ok),
+                      f"while {short(t)} with {kname} = {K.env.get(kname).e if kname in K.env else '?'} before the loop",
+                      construct="walk over the older points: count"))
+        cfg = ctx.cfg(f)
+        from ..flow import node_defs
+        decs = [n for n in cfg.nodes if cfg.in_loop(n, lp) for k2, v2, how in node_defs(n) if k2 == kname]
+        okd = len(decs) == 1 and isinstance(decs[0].ast, ast.AugAssign) and isinstance(decs[0].ast.op, ast.Sub) and \
+            isinstance(decs[0].ast.value, ast.Constant) and decs[0].ast.value.value == 1
+        if okd:
+            head = [n for n in cfg.nodes if n.kind == "loophead" and n.owner is lp][0]
+            okd = not cfg.exists_path_avoiding(head, head, lambda m: m is decs[0] or not cfg.in_loop(m, lp))
+            # the index must not be used after the decrement within the iteration
+            after = cfg.reachable(decs[0], avoid=lambda m: m.kind == "loophead", follow_exc=False)
+            okd = okd and not any(kname in {x.id for e in ([m.ast] if m.ast is not None else []) for x in ast.walk(e) if isinstance(x, ast.Name)}
+                                  for m in after if cfg.in_loop(m, lp) and m.kind != "loophead" and m.kind != "test" or (m.kind == "test" and m.owner is not lp and m in after and False))
+        okk = okd and used == {kname}
+        obs.append(ob("FILTERWALK", "points are visited from the second newest down to the oldest", f, lp, bool(okk),
+                      f"index expression(s) {sorted(used)}; `{kname}` decreases by one on every path of the body: {okd}",
+                      construct="walk over the older points: index"))
     return obs
 
 
